@@ -1,6 +1,8 @@
 import CacheVerif.Props.C01
 import CacheVerif.Props.C11
 import CacheVerif.Proofs.ProtoData
+import CacheVerif.Proofs.ProtoRange
+import CacheVerif.Proofs.ProtoLin
 import CacheVerif.Proofs.DeepSource
 import CacheVerif.Proofs.CacheWalk
 /-!
@@ -213,6 +215,111 @@ theorem C07_snapshot_exact (s : Model.Proto.St K V) (h : Reach p s) (t : Model.P
   let r := rgCopy_snapshot p s h t c g' l' hpc hs
   ⟨r.1, r.2.1, r.2.2.1⟩
 
+/-! #### the whole call: the window of one `Range`
+
+`Trav p u d s0 sts s1` (`Proofs/ProtoRange.lean`): `sts` are the states from `s0` to `s1` of *any* execution fragment
+(any threads, any calls, grow / shrink / `Clear`, the visitor of `u` calling back into the map) during which the call
+of thread `u` at visitor-nesting depth `d` does not return before `s1`, and in which the visitor of `u` never stops a
+traversal.  With `s0` the state in which `u` is about to load the table pointer and `s1` the state in which that call
+returns the list `π`, the three clauses of the property at map level are theorems about every such window. -/
+
+/-- **every entry that stays put is visited** (all schedules): a pair bound in the current table in every state of the
+window is among the pairs handed to the visitor.  (A generation retired by a grow or a shrink is frozen - no writer
+that passed its checks is still inside it; one retired by `Clear` is not, but then the key is no longer bound.) -/
+theorem C07_complete (hmin : 0 < p.minLen) (u : Model.Proto.Tid) (s0 s1 : Model.Proto.St K V)
+    (sts : List (Model.Proto.St K V)) (π : List (K × V)) (h0 : Reach p s0) (hpc : (s0.l u).pc = .rgTable)
+    (htr : Proofs.ProtoRange.Trav p u (s0.l u).frames.length s0 sts s1)
+    (hret : (s1.l u).pc = .ret) (hdep : (s1.l u).frames.length = (s0.l u).frames.length)
+    (hres : (s1.l u).result = some (.visits π)) :
+    ∀ k v, (∀ σ ∈ sts, absGet σ.g k = some v) → (k, v) ∈ π :=
+  Proofs.ProtoRange.trav_complete p hmin u s0 s1 sts π h0 hpc htr hret hdep hres
+
+/-- **at most once per key**, for the list any `Range` call returns (all schedules) -/
+theorem C07_result_once (hmin : 0 < p.minLen) (s : Model.Proto.St K V) (h : Reach p s) (u : Model.Proto.Tid)
+    (π : List (K × V)) (hres : (s.l u).result = some (.visits π)) : (π.map (·.1)).Nodup :=
+  Proofs.ProtoRange.result_nodup p hmin s h u π hres
+
+/-- **only real entries, partial** (all schedules in which no `Clear` publishes its empty table during the call):
+every pair handed over was bound to its key in the current table in one of the states of the window.
+Missing for the full statement: a `Clear` publishing during the call lets a writer that had passed its checks commit
+into the retired generation, and the traversal may hand that pair over; the helping step of `Clear` linearizes that
+write *before* the `Clear` (`C03_C04_lin`), so the pair was current in the linearization, but the current table never
+held it.  For those windows the statement is `C07_snapshot_exact` (the pair was in the walked generation). -/
+theorem C07_real_partial (hmin : 0 < p.minLen) (u : Model.Proto.Tid) (s0 s1 : Model.Proto.St K V)
+    (sts : List (Model.Proto.St K V)) (π : List (K × V)) (h0 : Reach p s0) (hpc : (s0.l u).pc = .rgTable)
+    (htr : Proofs.ProtoRange.Trav p u (s0.l u).frames.length s0 sts s1)
+    (hncs : ∀ σ ∈ sts, Proofs.ProtoRange.NoClearPublish σ)
+    (hret : (s1.l u).pc = .ret) (hdep : (s1.l u).frames.length = (s0.l u).frames.length)
+    (hres : (s1.l u).result = some (.visits π)) :
+    ∀ e ∈ π, ∃ σ ∈ sts, absGet σ.g e.1 = some e.2 :=
+  Proofs.ProtoRange.trav_real_partial p hmin u s0 s1 sts π h0 hpc htr hncs hret hdep hres
+
 end conc
+
+theorem trav_reach {K V : Type} [DecidableEq K] {p : Model.Proto.Params K} {u : Model.Proto.Tid} {d : Nat}
+    {s s1 : Model.Proto.St K V} {sts : List (Model.Proto.St K V)} (h : Proofs.ProtoRange.Trav p u d s sts s1)
+    (h0 : Model.Proto.Reach p s) : Model.Proto.Reach p s1 := by
+  induction h with
+  | refl s => exact h0
+  | step s s' s1 t c sts _ hs _ _ ih => exact ih (Proofs.ProtoLin.reach_step p s s' t c h0 hs)
+
+/-- **the hypothesis of `C07_cache_conc` is a theorem about M4a** (windows without a publishing `Clear`): the pairs a
+`Range` of the table protocol returns and the contents the current table went through satisfy `MapRangeOK`.  So the
+three clauses of the property hold for `Cache.Range` / `CacheOf.Range` (the text of both files, `C07_cache_conc`) over
+the table protocol, for every schedule. -/
+theorem C07_map_range_ok_partial {K V : Type} [DecidableEq K] (p : Model.Proto.Params K) (hmin : 0 < p.minLen)
+    (u : Model.Proto.Tid) (s0 s1 : Model.Proto.St K (Item V))
+    (sts : List (Model.Proto.St K (Item V))) (π : List (K × Item V)) (h0 : Model.Proto.Reach p s0)
+    (hpc : (s0.l u).pc = .rgTable) (htr : Proofs.ProtoRange.Trav p u (s0.l u).frames.length s0 sts s1)
+    (hncs : ∀ σ ∈ sts, Proofs.ProtoRange.NoClearPublish σ)
+    (hret : (s1.l u).pc = .ret) (hdep : (s1.l u).frames.length = (s0.l u).frames.length)
+    (hres : (s1.l u).result = some (.visits π)) :
+    MapRangeOK (sts.map fun σ => (σ.g.tables σ.g.cur).data) π := by
+  have hreach1 : Model.Proto.Reach p s1 := trav_reach htr h0
+  refine ⟨C07_result_once p hmin s1 hreach1 u π hres, ?_, ?_⟩
+  · intro e he
+    obtain ⟨σ, hσ, h⟩ := C07_real_partial p hmin u s0 s1 sts π h0 hpc htr hncs hret hdep hres e he
+    exact ⟨_, List.mem_map.mpr ⟨σ, hσ, rfl⟩, h⟩
+  · intro k i hall
+    refine C07_complete p hmin u s0 s1 sts π h0 hpc htr hret hdep hres k i (fun σ hσ => ?_)
+    exact hall _ (List.mem_map.mpr ⟨σ, hσ, rfl⟩)
+
+/-! #### non-vacuity: a concrete window.  Thread 0 has stored `1 ↦ 5`; thread 1 runs `Range` while thread 0 stores
+`2 ↦ 7`; the window meets every hypothesis above and the call returns both pairs. -/
+section example_window
+open Model.Proto Proofs.ProtoRange
+
+def exP : Params Nat := { growThr := fun n => n * 9 / 4, shrinkThr := fun n => n * 3 / 128, bkt := fun _ k => k, minLen := 2, growOnly := false, stripes := fun _ => 8 }
+
+def nop : Choice Nat Nat := {}
+
+/-- `Store(1, 5)` by thread 0, then thread 1 enters `Range` -/
+def exPre : List (Tid × Choice Nat Nat) :=
+  (0, { op := some (.dc 1 (fun _ => (5, false)) false false) }) :: List.replicate 11 (0, nop) ++
+  [(1, { op := some .range })]
+
+/-- thread 1 walks root bucket 0; thread 0 runs `Store(3, 7)` to completion; thread 1 walks root bucket 1 and returns -/
+def exMid : List (Tid × Choice Nat Nat) :=
+  List.replicate 4 (1, nop) ++ [(0, { op := some (.dc 3 (fun _ => (7, false)) false false) })] ++
+  List.replicate 11 (0, nop) ++ List.replicate 8 (1, nop)
+
+def exS0 : St Nat Nat := (run exP (init exP) exPre).getD (init exP)
+theorem exS0_run : run exP (init exP) exPre = some exS0 := rfl
+def exRes : List (St Nat Nat) × St Nat Nat := (travRun exP 1 0 exS0 exMid).getD ([], exS0)
+theorem exRes_eq : travRun exP 1 0 exS0 exMid = some (exRes.1, exRes.2) := rfl
+
+example : ∃ (s0 s1 : St Nat Nat) (sts : List (St Nat Nat)) (π : List (Nat × Nat)),
+    Reach exP s0 ∧ (s0.l 1).pc = .rgTable ∧ Trav exP 1 (s0.l 1).frames.length s0 sts s1 ∧
+    (∀ σ ∈ sts, NoClearPublish σ) ∧ (s1.l 1).pc = .ret ∧ (s1.l 1).frames.length = (s0.l 1).frames.length ∧
+    (s1.l 1).result = some (.visits π) ∧ (∀ σ ∈ sts, Proofs.ProtoData.absGet σ.g 1 = some 5) ∧
+    π = [(3, 7), (1, 5)] := by
+  refine ⟨exS0, exRes.2, exRes.1, [(3, 7), (1, 5)], ⟨exPre, exS0_run⟩, rfl,
+    travRun_sound exP 1 0 exMid exS0 exRes.2 exRes.1 exRes_eq, ?_, rfl, rfl, rfl, ?_, rfl⟩
+  · have h : ∀ σ ∈ exRes.1, σ.g.resizer = none := by decide
+    intro σ hσ w hw
+    rw [h σ hσ] at hw; cases hw
+  · decide
+
+end example_window
 
 end Props.C07
